@@ -2,13 +2,13 @@
 from ..atomic import AtomicPart
 from ..runner import run_check
 
-SCENARIOS = ["race", "two_stops", "self_dereg", "dereg_other", "reg_after_stop", "two_owners"]
+SCENARIOS = ["race", "two_stops", "self_dereg", "dereg_other", "reg_after_stop", "two_owners", "late_stop_dereg", "late_stop_self_dereg"]
 
 
 def run(tier, seed, replay=None):
     parts = [AtomicPart("stopsource", "scn_c03.cpp", ["inplace_stop_token.cpp"], "stopsource", SCENARIOS)]
     return run_check(
-        "C03", tier, seed, ["UnifexModel.Props.C03"], parts,
+        "C03", tier, seed, ["UnifexModel.Props.C03", "UnifexModel.Props.C03_late"], parts,
         rule="every schedule (DFS, preemption-bounded, plus random/PCT walks) of 6 scenarios on the real inplace_stop_source under the "
              "controlled scheduler; a case = one distinct observable history; non-trivial = admitted by the Lean model after at least one context switch",
         assumptions=["sequentially consistent atomics (memory orders ignored)", "critical sections of the spin lock are atomic w.r.t. other lock holders",
